@@ -127,6 +127,11 @@ class Harness:
         self.path.inputs["case:" + name] = k
         return options[k]
 
+    def native_choice(self, name, options):
+        """A choice that only steers the *native search* towards interesting inputs (e.g. "the checksum is the real
+        CRC with its bytes swapped"): the symbolic reading covers all inputs anyway and takes options[0]."""
+        return options[0]
+
     def string(self, name, nbytes, no_nul=True, exclude_bytes=()):
         """A symbolic str whose UTF-8 encoding has exactly nbytes bytes (valid UTF-8 assumed)."""
         from .pybuiltins import utf8_valid
@@ -455,6 +460,10 @@ class NativeHarness:
     def choice(self, name, options):
         return options[int(self.inputs["case:" + name])]
 
+    def native_choice(self, name, options):
+        k = self.inputs.get("native:" + name)
+        return options[int(k)] if k is not None else options[0]
+
     def string(self, name, nbytes, no_nul=True, exclude_bytes=()):
         return bytes(self.inputs[name]["__str_utf8__"]).decode("utf-8")
 
@@ -662,6 +671,11 @@ class ConcreteHarness(Harness):
         if name not in self.inputs_in:
             raise SkipConformance(f"no recorded value for {name}")
         return self.inputs_in[name]
+
+    def native_choice(self, name, options):
+        if self.inputs_in.get("native:" + name):
+            raise SkipConformance("the native run steered its inputs (native_choice); the sample is not comparable")
+        return options[0]
 
     def int(self, name, lo=None, hi=None):
         return int(self._in(name))
